@@ -19,10 +19,12 @@ def main():
     sys.stderr.write((r.stdout + r.stderr)[-3000:])
     if r.returncode != 0:
         return 1
-    lib, err = core.build_impl("asan")
-    if lib is None:
-        sys.stderr.write(err[-3000:])
-        return 1
+    # the sanitizer builds the checks use (cached per source hash): ASan+UBSan, the same with the enum check (C10), TSan (C18)
+    for san in ("asan", "asan_enum", "tsan"):
+        lib, err = core.build_impl(san)
+        if lib is None:
+            sys.stderr.write(err[-3000:])
+            return 1
     return 0
 
 if __name__ == "__main__":
